@@ -67,8 +67,12 @@ def transforms(tier):
         for kind, m in base[:: (3 if tier == "quick" else 1)]:
             prods.append(("translate." + kind, A.mul(t, m)))
     if tier == "thorough":
-        for (k1, m1), (k2, m2) in itertools.product([x for x in base if x[0] == "rotate"][::4], [x for x in base if x[0] in ("nuscale", "mirror")]):
+        for (k1, m1), (k2, m2) in itertools.product([x for x in base if x[0] == "rotate"][::2], [x for x in base if x[0] in ("nuscale", "mirror", "uscale")]):
             prods.append((k1 + "." + k2, A.mul(m1, m2)))
+            prods.append((k2 + "." + k1, A.mul(m2, m1)))
+        for (k1, m1) in [x for x in out if x[0] == "shear"]:
+            for t in tr[:4]:
+                prods.append(("translate." + k1, A.mul(t, m1)))
     return out + prods
 
 
